@@ -12,6 +12,7 @@ Require Import IW.UT.Rb_ring_proofs.
 Require Import IW.UT.AvlWalk IW.UT.AvlWalk_proofs.
 Require Import IW.UT.ListSort_proofs IW.UT.Plist_own_proofs IW.UT.Sarr_run_proofs.
 Require Import IW.UT.PoolStr IW.UT.PoolStr_proofs.
+Require Import IW.UT.PoolBig IW.UT.PoolBig_proofs.
 Import ListNotations.
 
 (* ================================================================ T1: the static hash functions at probe points *)
@@ -936,6 +937,45 @@ Theorem C18_pool_split_bounds : forall (h seps : list Z) (ws : bool),
   tl sizes = map (fun t => (length t + 1)%nat) (split_ref h seps ws).
 Proof. exact split_allocs_ok. Qed.
 Print Assumptions C18_pool_split_bounds.
+
+(* ---- requests near SIZE_MAX (model UT/PoolBig.v: the request is a size_t value, IW_ROUNDUP computed modulo 2^64).  WITH the overflow
+   guard of fixes/cont-pool-alloc-size-wrap.diff every request 0 .. SIZE_MAX either fails and leaves the pool as it was (all requests
+   above PTRDIFF_MAX), or is the allocation of UT/Pool.v (whose region holds every requested byte: C18_pool_alloc_ok); a pointer with
+   no byte reserved is returned only for a request of 0 bytes; iwpool_calloc / iwpool_strndup never write past what was reserved *)
+Theorem C18_pool_alloc_size_guarded : forall (p : pool) (siz : Z), (0 <= siz <= SIZE_MAX)%Z ->
+  match snd (p_alloc_z true p siz) with
+  | ZNull => fst (p_alloc_z true p siz) = p /\ (MALLOC_MAX < siz)%Z
+  | ZZero u off => fst (p_alloc_z true p siz) = p /\ siz = 0%Z
+  | ZOk w => (0 < siz <= MALLOC_MAX)%Z /\ (fst (p_alloc_z true p siz), w) = p_alloc p (Z.to_nat siz)
+  end.
+Proof. exact p_alloc_z_guarded. Qed.
+Print Assumptions C18_pool_alloc_size_guarded.
+
+Theorem C18_pool_calloc_strndup_size_guarded : forall (p : pool) (n : Z), (0 <= n <= SIZE_MAX)%Z ->
+  snd (p_calloc_z true p n) = false /\ snd (p_strndup_z true p n) = false.
+Proof. exact p_calloc_strndup_z_guarded. Qed.
+Print Assumptions C18_pool_calloc_strndup_size_guarded.
+
+(* WITHOUT the guard (flag false: the code before that fix; finding cont-pool-alloc-size-wrap): every request in (SIZE_MAX - 7, SIZE_MAX]
+   returns the current heap pointer with no byte reserved and leaves usiz alone, iwpool_calloc then clears siz bytes there *)
+Theorem C18_pool_alloc_size_wrap : forall (p : pool) (siz : Z), (SIZE_MAX - 7 < siz <= SIZE_MAX)%Z ->
+  p_alloc_z false p siz = (p, ZZero (length (p_units p) - 1) (p_usiz p)) /\ snd (p_calloc_z false p siz) = true.
+Proof. exact p_alloc_z_unguarded_wraps. Qed.
+Print Assumptions C18_pool_alloc_size_wrap.
+
+(* the reported input: pool of 64 bytes, 8 allocated, iwpool_alloc(SIZE_MAX - 3) = unit 0 offset 8 with nothing reserved - the address
+   the next iwpool_alloc(16) gets; with the guard: NULL; iwpool_strndup(.., SIZE_MAX) copies into a block of 0 bytes / fails *)
+Theorem C18_pool_alloc_size_wrap_refuted :
+  let p := fst (p_alloc (p_create 64) 8) in
+  p_alloc_z false p (SIZE_MAX - 3) = (p, ZZero 0 8) /\
+  snd (p_alloc p 16) = (0%nat, 8%nat) /\
+  p_alloc_z true p (SIZE_MAX - 3) = (p, ZNull) /\
+  snd (p_strndup_z false p SIZE_MAX) = true /\ p_strndup_z true p SIZE_MAX = (p, ZNull, false).
+Proof. exact p_alloc_z_unguarded_refuted. Qed.
+Print Assumptions C18_pool_alloc_size_wrap_refuted.
+
+Example C18_pool_size_max : SIZE_MAX = 18446744073709551615%Z /\ MALLOC_MAX = 9223372036854775807%Z.
+Proof. exact size_max_val. Qed.
 
 (* a split whose token blocks cross the end of the unit: pool of 96 bytes, the pointer array takes 80, two tokens fit, the third
    one opens a new unit of 104 + 96 bytes *)
